@@ -126,8 +126,18 @@ if __name__ == '__main__':
             i = a.index('--tier'); tier = a[i + 1]; del a[i:i + 2]
         cmd_run(a[1], a[2:], tier)
     elif a[0] == 'runall':
-        out = {}
-        for sid in sorted(os.listdir(os.path.join(ROOT, 'seeded'))):
-            if os.path.isdir(os.path.join(ROOT, 'seeded', sid)):
-                out[sid] = cmd_run(sid, [])
+        from concurrent.futures import ThreadPoolExecutor
+        jobs = int(a[a.index('--jobs') + 1]) if '--jobs' in a else 3
+        sids = [s for s in sorted(os.listdir(os.path.join(ROOT, 'seeded'))) if os.path.isdir(os.path.join(ROOT, 'seeded', s))]
+        def one(sid):
+            try:
+                return sid, cmd_run(sid, [])
+            except AssertionError as e:
+                print(sid, 'ERROR', str(e)[:200])
+                return sid, {'error': str(e)[:300]}
+        with ThreadPoolExecutor(jobs) as ex:
+            out = dict(ex.map(one, sids))
         json.dump(out, open(os.path.join(ROOT, 'seeded', 'RESULTS.json'), 'w'), indent=1)
+        bad = [s for s, r in out.items() if 'error' in r]
+        missed = [s for s, r in out.items() if 'error' not in r and all(v.get('exit') != 1 for v in r.values())]
+        print('seeds:', len(out), 'errors:', bad, 'not caught by own property:', missed)
